@@ -23,8 +23,11 @@ CONSTANTS Rep,          \* replicas = sources (strings)
           MaxSteps,     \* bound on the length of a behaviour
           Resolutions,  \* subset of {"RemoteWins", "LocalWins", "Merge"}
           EditCap,      \* a replica edits only while it has generated fewer than EditCap versions (99 = unrestricted)
+          Editors,      \* replicas that edit at all (the others only pull / resolve)
           Directed,     \* TRUE: directed family "merge, edit on, merge again, cross pull" - a pull is only taken when it
-                        \* classifies as Conflict, brings a replica its first vector, or fetches a merge result
+                        \* classifies as Conflict, brings a non-editing replica its first vector, or crosses two merge results;
+                        \* two consecutive events that commute (different writers, neither reads the other's
+                        \* writer) are only taken with the writers in replica order (one interleaving per class)
           RepOrder      \* <<>> or an arrangement of Rep: replicas receive their first vector in this order
                         \* (symmetry reduction: every action and predicate is invariant under renaming replicas;
                         \*  the harness binds the names to real source ids by a seeded permutation)
@@ -235,7 +238,10 @@ GhostPull(r, s, res) ==     \* follows what the replica really did: out'.cls (re
      /\ genok' = (genok /\ (mrgd => (v > gen[r] \/ r \in lost[r] \/ r \in lost[s])))
      /\ GhostBook(r, want, cls)
 
-Step(a, r, s, res, v, lag) == hist' = Append(hist, [a |-> a, r |-> r, s |-> s, res |-> res, v |-> v, lag |-> lag])
+(* x: the step pulls between two replicas that both hold a merge result (the directed family exports on it) *)
+Step(a, r, s, res, v, lag) ==
+  hist' = Append(hist, [a |-> a, r |-> r, s |-> s, res |-> res, v |-> v, lag |-> lag,
+                        x |-> (a = "Pull" /\ hlv[r].mv # Zero /\ hlv[s].mv # Zero)])
 
 Edit(r, v)         == ImplEdit(r, v) /\ GhostEdit(r) /\ Step("Edit", r, r, "None", v, v = EditFloor(hlv[r], r) + 1)
 Pull(r, s, res, v) == /\ r # s /\ hlv[s].src # NoSrc
@@ -250,13 +256,19 @@ MergeVersions(r, s) == {Max(gen[r], MergeFloor(hlv[r], hlv[s], r)) + 1, MergeFlo
 Pos(x) == CHOOSE k \in 1..Len(RepOrder) : RepOrder[k] = x
 Activation(r) == (RepOrder # <<>> /\ hlv[r].src = NoSrc) => \A q \in Rep : Pos(q) < Pos(r) => hlv[q].src # NoSrc
 
+(* w writes its vector and reads the vectors of the replicas in R *)
+Canon(w, R) ==
+  (Directed /\ RepOrder # <<>> /\ hist # <<>>) =>
+     LET e  == hist[Len(hist)]
+         R1 == IF e.a = "Pull" THEN {e.s} ELSE {}
+     IN (e.r # w /\ e.r \notin R /\ w \notin R1) => Pos(e.r) < Pos(w)
 PullClass(r, s) == IF hlv[r].src = NoSrc THEN "NoConflict" ELSE Classify(hlv[r], hlv[s])
 Next ==
   /\ Len(hist) < MaxSteps
-  /\ \/ \E r \in Rep : Activation(r) /\ gen[r] < EditCap /\ \E v \in EditVersions(r) : Edit(r, v)
+  /\ \/ \E r \in Rep : Activation(r) /\ r \in Editors /\ gen[r] < EditCap /\ Canon(r, {}) /\ \E v \in EditVersions(r) : Edit(r, v)
      \/ \E r, s \in Rep :
-          /\ r # s /\ hlv[s].src # NoSrc /\ Activation(r)
-          /\ Directed => (PullClass(r, s) = "Conflict" \/ hlv[r].src = NoSrc \/ hlv[s].mv # Zero)
+          /\ r # s /\ hlv[s].src # NoSrc /\ Activation(r) /\ Canon(r, {s})
+          /\ Directed => (PullClass(r, s) = "Conflict" \/ (hlv[r].src = NoSrc /\ r \notin Editors) \/ (hlv[r].mv # Zero /\ hlv[s].mv # Zero))
           /\ IF PullClass(r, s) = "Conflict"
              THEN \/ \E res \in Resolutions \ {"Merge"} : Pull(r, s, res, 0)
                   \/ "Merge" \in Resolutions /\ \E v \in MergeVersions(r, s) : Pull(r, s, "Merge", v)
